@@ -85,13 +85,16 @@ class C03(Check):
         for _ in range(n):
             allowed = rng.choice([None, [], [], [0], [1, 2], [0, 1, 2, 3], rng.sample([0, 1, 2, 3], 2)])
             ops, names = [], []
+            beh = {}        # the body's behaviour is a function of the tool NAME within a case (the recorded oracle
+                            # answers are keyed by name and arguments); capabilities may change on re-registration
             for _ in range(rng.randint(2, 9)):
                 k = rng.random()
                 if k < 0.3 or not names:
                     nm = rng.choice(NAMES)
                     names.append(nm)
+                    beh.setdefault(nm, rng.choice(["const", "const", "nargs", "raise", "none"]))
                     ops.append({"op": "reg", "name": nm, "caps": rng.sample([0, 1, 2, 3], rng.choice([0, 0, 1, 1, 2])),
-                                "behaviour": rng.choice(["const", "const", "nargs", "raise", "none"]),
+                                "behaviour": beh[nm],
                                 "attr": rng.choice(["required_capabilities", "required_capabilities", "capabilities"])})
                 elif k < 0.55:
                     t = rng.choice(names)
